@@ -738,6 +738,13 @@ func (w *world) doSetExpiry(kind, key string, abs bool, val int64) {
 // ---------------------------------------------------------------------------------
 // queries
 
+func consumeName(q *qSpec) string {
+	if q.Consume == "" {
+		return "buffer"
+	}
+	return q.Consume
+}
+
 func condClass(q *qSpec) string {
 	if q.Where == nil {
 		return "nocond"
@@ -766,11 +773,58 @@ func (w *world) doQuery(q *qSpec, why string) {
 		w.viol("query:refused", cls, fmt.Sprintf("Query(%s) was refused: %v", q, err), map[string]any{"query": q})
 		return
 	}
+	cc := condClass(q)
+	seen := map[string]int{}
+	// checkRec compares one delivered record with the model (tb = harness clock when the
+	// record is looked at)
+	checkRec := func(r record.Record, tb int64) {
+		k := r.DatabaseKey()
+		seen[k]++
+		mr := w.m.recs[k]
+		if mr != nil && mr.tainted {
+			return
+		}
+		vis, certain := mr.vis(t0, tb)
+		if !certain {
+			return
+		}
+		switch {
+		case !hasPrefix(k, q.Prefix):
+			w.viol("query:extra-prefix", "query", fmt.Sprintf("Query(%s) returned key %q, which does not start with the prefix %q", q, k, q.Prefix),
+				map[string]any{"query": q, "key": k})
+			return
+		case !vis:
+			w.viol("query:extra-invisible", w.after(mr), fmt.Sprintf("Query(%s) returned key %q, which is deleted/expired/absent in the reference map", q, k),
+				map[string]any{"query": q, "key": k})
+			w.taint(mr)
+			return
+		}
+		if match, ok := mr.matches(q); ok && !match {
+			w.viol("query:extra-cond", cc+"/"+mr.form, fmt.Sprintf("Query(%s) returned key %q whose fields %s do not satisfy the condition", q, k, mr.c.String()),
+				map[string]any{"query": q, "key": k, "content": mr.c})
+			return
+		}
+		if kinds, desc := w.cmpRecord(k, mr, r, tb); len(kinds) > 0 {
+			w.viol("query:record-"+kindClass(kinds), w.after(mr), fmt.Sprintf("Query(%s) delivered key %q with other content than stored (%s; consumer: %s): %s", q, k, strings.Join(kinds, ","), consumeName(q), desc),
+				map[string]any{"query": q, "key": k, "differs": kinds, "consume": consumeName(q)})
+			w.taint(mr)
+		}
+	}
 	var got []record.Record
+	ngot := 0
 	drained := make(chan struct{})
 	go func() {
 		for r := range it.Next {
-			got = append(got, r)
+			ngot++
+			switch q.Consume {
+			case "prompt":
+				checkRec(r, nowS())
+			case "slow":
+				got = append(got, r)
+				time.Sleep(150 * time.Microsecond)
+			default:
+				got = append(got, r)
+			}
 		}
 		close(drained)
 	}()
@@ -783,7 +837,9 @@ func (w *world) doQuery(q *qSpec, why string) {
 	}
 	ierr := it.Err()
 	t1 := nowS()
-	w.logf("query(%s) %s -> %d records, err=%v", why, q, len(got), ierr)
+	w.logf("query(%s) %s -> %d records, err=%v", why, q, ngot, ierr)
+	w.b.Count("query_consume/"+consumeName(q), 1)
+	w.b.Max("query_records_max", int64(ngot))
 	if isTimeout(ierr) {
 		w.inconclusive("query: %v", ierr)
 		return
@@ -800,40 +856,10 @@ func (w *world) doQuery(q *qSpec, why string) {
 		}
 		w.viol("query:error", cls, fmt.Sprintf("Query(%s) ended with error %v; the reference map has no failing queries", q, ierr), map[string]any{"query": q})
 	}
-	cc := condClass(q)
-	seen := map[string]int{}
+	// the stream has ended and the producer is done with its iteration: only now look
+	// at the buffered records
 	for _, r := range got {
-		k := r.DatabaseKey()
-		seen[k]++
-		mr := w.m.recs[k]
-		if mr != nil && mr.tainted {
-			continue
-		}
-		vis, certain := mr.vis(t0, t1)
-		if !certain {
-			continue
-		}
-		switch {
-		case !hasPrefix(k, q.Prefix):
-			w.viol("query:extra-prefix", "query", fmt.Sprintf("Query(%s) returned key %q, which does not start with the prefix %q", q, k, q.Prefix),
-				map[string]any{"query": q, "key": k})
-			continue
-		case !vis:
-			w.viol("query:extra-invisible", w.after(mr), fmt.Sprintf("Query(%s) returned key %q, which is deleted/expired/absent in the reference map", q, k),
-				map[string]any{"query": q, "key": k})
-			w.taint(mr)
-			continue
-		}
-		if match, ok := mr.matches(q); ok && !match {
-			w.viol("query:extra-cond", cc+"/"+mr.form, fmt.Sprintf("Query(%s) returned key %q whose fields %s do not satisfy the condition", q, k, mr.c.String()),
-				map[string]any{"query": q, "key": k, "content": mr.c})
-			continue
-		}
-		if kinds, desc := w.cmpRecord(k, mr, r, t1); len(kinds) > 0 {
-			w.viol("query:record-"+kindClass(kinds), w.after(mr), fmt.Sprintf("Query(%s) delivered key %q with other content than stored (%s): %s", q, k, strings.Join(kinds, ","), desc),
-				map[string]any{"query": q, "key": k, "differs": kinds})
-			w.taint(mr)
-		}
+		checkRec(r, t1)
 	}
 	for k, n := range seen {
 		if n > 1 {
@@ -872,7 +898,7 @@ func (w *world) doQuery(q *qSpec, why string) {
 				map[string]any{"query": q, "key": k, "content": mr.c})
 		}
 	}
-	w.b.Count("query_records", int64(len(got)))
+	w.b.Count("query_records", int64(ngot))
 	switch {
 	case want == 0:
 		w.b.Count("query_empty", 1)
